@@ -140,3 +140,38 @@ Proof. intros A. cbn [sem]. now rewrite A. Qed.
 Theorem ptr_absent_optional e pz v d e0 : parse_zero v = true ->
   sem Parse (SPtr e None pz) (DVal v) d e0 = ([], d) /\ sem Validate (SPtr e None pz) (DVal v) (DPtr None) e0 = ([], DPtr None).
 Proof. intros A. cbn [sem]. now rewrite A. Qed.
+
+(** ** Preprocess: what is absent is decided on the function's output, by the rule of the mode *)
+Lemma rerrored_rcall_pre id a : rerrored (rcall id CbPre a) = false.
+Proof. apply rerrored_rcall. Qed.
+
+(** Parse: the wrapped schema parses the function's output as its input — so its Required / Default /
+    Optional decisions are the Parse decisions (nil, blank string) on that output, and its destination
+    is written by the wrapped schema alone *)
+Theorem preprocess_output_is_parsed pf e v v' d e0 : pre_parse pf v = Some (inl v') ->
+  sem Parse (SPre pf e) (DVal v) d e0
+  = ((rcall (pre_id pf) CbPre None ++ fst (sem Parse e (DVal v') d e0))%list, snd (sem Parse e (DVal v') d e0)).
+Proof.
+  intros E. cbn [sem data_val]. rewrite E. rewrite rerrored_rcall_pre, orb_false_r.
+  destruct (sem Parse e (DVal v') d e0) as [l d1]. reflexivity.
+Qed.
+
+(** Validate: the wrapped schema validates the function's output in place, by the Validate rule (zero value) *)
+Theorem preprocess_output_is_validated pf e dat d d' e0 : pre_valid pf d = inl d' ->
+  sem Validate (SPre pf e) dat d e0
+  = ((rcall (pre_id pf) CbPre (Some d) ++ fst (sem Validate e (DVal VNil) d' e0))%list, snd (sem Validate e (DVal VNil) d' e0)).
+Proof.
+  intros E. cbn [sem]. rewrite E. rewrite rerrored_rcall_pre, orb_false_r.
+  destruct (sem Validate e (DVal VNil) d' e0) as [l d1]. reflexivity.
+Qed.
+
+(** in particular a required primitive below a Preprocess whose output is blank is reported, a falsy
+    output (0, false) is a value *)
+Corollary preprocess_blank_output_is_absent pf p v v' d e0 rt : pre_parse pf v = Some (inl v') -> parse_zero v' = true ->
+  p_def p = None -> p_req p = Some rt -> p_catch p = None -> p_pts p = [] ->
+  sem Parse (SPre pf (SPrim p)) (DVal v) d e0
+  = ((rcall (pre_id pf) CbPre None ++ [RI [] (fun q => mk_test_issue q (dtype_of (p_kind p)) rt)])%list, d).
+Proof.
+  intros E Z Hd Hr Hc Hp. rewrite (preprocess_output_is_parsed pf (SPrim p) v v' d e0 E).
+  cbn [sem data_val]. unfold sem_prim. rewrite Z, Hd, Hr, Hc, Hp. rewrite then_pts_nil. cbn [fst snd]. now rewrite app_nil_r.
+Qed.
